@@ -90,7 +90,7 @@ def confirm(src, name, prop):
         drop(wt)
 
 
-def run(names, tier, checks):
+def run(names, tier, checks, save_regress=False):
     names = names or sorted(d for d in os.listdir(SEEDED) if os.path.isdir(os.path.join(SEEDED, d)))
     bad = 0
     for name in names:
@@ -104,6 +104,8 @@ def run(names, tier, checks):
             for chk in (checks or meta.get("checks") or [meta["property"]]):
                 env = dict(os.environ, VERIF_REPO=wt, VERIF_SEED=os.environ.get("VERIF_SEED", "1"))
                 c = sh([os.path.join(ROOT, "check"), chk, "--tier", tier], env=env)
+                if save_regress and c.returncode == 1:
+                    keep_regress(c.stdout, chk, name)
                 lines = [l for l in c.stdout.splitlines() if l.startswith("  violated")]
                 head = [l for l in c.stdout.splitlines() if l.startswith(chk + " [")]
                 status = "CAUGHT" if c.returncode == 1 else f"MISSED(exit {c.returncode})"
@@ -116,11 +118,35 @@ def run(names, tier, checks):
     return 1 if bad else 0
 
 
+def keep_regress(stdout, chk, name, max_files=2):
+    """commit the minimal reproductions as regression replays (re-run first by every invocation of the check)"""
+    dst_dir = os.path.join(ROOT, "replays", "regress")
+    os.makedirs(dst_dir, exist_ok=True)
+    kept, keys = 0, set()
+    for line in stdout.splitlines():
+        if line.startswith("VIOLATION ") and "replay=" in line:
+            p = line.split("replay=", 1)[1].strip()
+            if not os.path.exists(p):
+                continue
+            doc = json.load(open(p))
+            if doc.get("property") != chk or doc["key"] in keys:
+                continue
+            keys.add(doc["key"])
+            doc["origin"] = f"minimal reproduction found by ./check {chk} against seeded change seeded/{name}; passes on the unchanged tree"
+            with open(os.path.join(dst_dir, f"{chk}-{name}-{kept + 1}.json"), "w") as fh:
+                json.dump(doc, fh, indent=1)
+            kept += 1
+            if kept >= max_files:
+                break
+
+
 if __name__ == "__main__":
     if sys.argv[1] == "confirm":
         sys.exit(confirm(sys.argv[2], sys.argv[3], sys.argv[4]))
     args = sys.argv[2:]
     tier, checks, names = "quick", None, []
+    save = "--save-regress" in args
+    args = [a for a in args if a != "--save-regress"]
     i = 0
     while i < len(args):
         if args[i] == "--tier":
@@ -129,4 +155,4 @@ if __name__ == "__main__":
             checks = args[i + 1].split(","); i += 2
         else:
             names.append(args[i]); i += 1
-    sys.exit(run(names, tier, checks))
+    sys.exit(run(names, tier, checks, save))
